@@ -92,14 +92,15 @@ Inductive event :=
 | AAttach (i : sid)     (* server request_handler: _stream.wrapper = Wrapper() / DeadlineWrapper() *)
 | ADeadline (i : sid)   (* the call's DeadlineWrapper timer fires: wrapper.cancel(TimeoutError) *)
 | ACancel (i : sid)     (* Stream.reset / reset_nowait: h2.reset_stream only *)
-| ARead (i : sid).      (* Buffer.read takes one item from _unacked *)
+| ARead (i : sid)       (* Buffer.read takes one item from _unacked *)
+| AWaitWindow (i : sid). (* Stream.send_data found no window: window_updated.clear() before waiting on it *)
 
 (* the stream an event is addressed to; None = it concerns the connection *)
 Definition addr (e : event) : option sid :=
   match e with
   | ERequest i _ | EResponse i _ | EData i _ _ | ETrailers i _ | EEnded i | EReset i _ _ => Some i
   | EWindow i => if i =? 0 then None else Some i
-  | ARegister i | ARelease i | AAttach i | ADeadline i | ACancel i | ARead i => Some i
+  | ARegister i | ARelease i | AAttach i | ADeadline i | ACancel i | ARead i | AWaitWindow i => Some i
   | _ => None
   end.
 
@@ -283,6 +284,8 @@ Definition call_step (cn : conn) (i : sid) (oc : option call) (e : event) : cres
           end
       | None => same None
       end
+  | AWaitWindow _ =>
+      match oc with Some c => same (Some (set_wu false c)) | None => same None end
   | _ => same oc
   end.
 
